@@ -96,7 +96,8 @@ Definition rsp_pair (r : rsp) : bytes * N := (o_data r, match o_status r with So
 
 Inductive fcase :=
 | EndToEnd (c : fcase_full)
-| UserOnly (responses : list (bytes * N)) (yielded : list (option bytes * N)) (consumed : N).
+| UserOnly (responses : list (bytes * N)) (yielded : list (option bytes * N)) (consumed : N)
+| Wrapper (query_seen : bool) (matches : list (bytes * N)) (yielded : list (option bytes * N)).   (* pynetdicom2.c_find *)
 
 Definition find_corr (c : fcase) : bool :=
   match c with
@@ -104,6 +105,7 @@ Definition find_corr (c : fcase) : bool :=
       beq_rsps (find_scp (f_q c) (f_matches c)) (f_sent c)
       && beq_yield (find_scu (map rsp_pair (f_sent c))) (f_yield c)
   | UserOnly rs ys n => beq_yield (find_scu rs) ys && (n =? lenN ys)
+  | Wrapper _ ms ys => beq_yield (find_scu (map rsp_pair (find_scp (mkrq 32 1 1 [] None []) ms))) ys
   end.
 
 (* pend ++ [final]: everything up to and including the first response that is not pending *)
@@ -122,6 +124,8 @@ Definition find_spec (c : fcase) : bool :=
   | UserOnly rs ys n =>
       beq_yield ys (map (fun m => (match fst m with [] => None | d => Some d end, snd m)) (upto_final rs))
       && (n =? lenN (upto_final rs))
+  | Wrapper seen ms ys =>
+      seen && beq_yield ys (map (fun m => (Some (fst m), snd m)) ms ++ [(None, 0)])
   end.
 
 (* ---- C19: C-GET user ------------------------------------------------------------------------------- *)
